@@ -10,6 +10,8 @@ Tie to source
      correspondence: exact on integer tokens for the index layer (exhaustive over
      all small configurations), 1e-9 on the numeric layer against the driver's
      O(N^2) binary64 DFT.
+Robustness classes R1-R14 live in this file, R15 (close-but-distinct values) and R16
+(argument identity / buffer reuse) in the helper module c02_close_reuse.py.
 """
 import math
 
@@ -90,7 +92,28 @@ CLAIM = {
             'input (call library-exception), never as exit 2. '
             'Python lists are not accepted by the API (ndarray only). Each class has its own required branches '
             '(R*:corr, R*:oracle*) and failure classes computed from the input (R1:param-<type>, R1:array-<dtype>:*, '
-            'R2:<layout>:*, R3:input-mutated:<call>:<what>, R4:*, ...,notch<=1e-3 / ,input-scale<1e-6 qualifiers).',
+            'R2:<layout>:*, R3:input-mutated:<call>:<what>, R4:*, ...,notch<=1e-3 / ,input-scale<1e-6 qualifiers). '
+            'Third robustness round (harness/props/c02_close_reuse.py): R15 distinct values that are merely close - '
+            'THEOREM (params_exact_comparison, setter_takes_effect_for_every_new_value, all_used_branch_exact, '
+            'index_map_exact, freq_response_exact: the model compares exactly, the all-subcarriers branch is taken at '
+            'used = fft only, no perturbation of the taps is ignored) + correspondence (index map, padding and guards at '
+            'fft 2^18 / 200003 with used = fft - 2 | fft - 1; pair histories on close families of signals and channels; '
+            'impulse responses varying by 1e-6 / 1e-10 / one ulp inside an OFDM symbol) + oracle `close` (families: '
+            'magnitudes 1e-9 / 1e-12 / 1e-15, 2.4e9 with relative steps of 1e-6, adjacent doubles, 13th decimal; close '
+            'integers; path powers 1e-5 dB apart and all below -90 dB; sampling intervals 1e-15 .. 2.4e9; paths 1e-9 of a '
+            'sample on either side of a half sample, generated with that margin; every member is compared with a fresh '
+            'first-principles computation for THAT value on ONE long-lived object, and bit for bit with a fresh object). '
+            'R16 argument identity and buffer reuse - THEOREM (pair_result_depends_on_contents_only, '
+            'pair_earlier_results_unchanged, pair_equals_fresh: the model has values, no array objects) + correspondence '
+            '(pair histories with the implementation handed ONE preallocated array per role, refilled in place, or views '
+            'of one big array) + oracle `reuse` (histories of 2-4 transmissions through ONE OFDM object, ONE equaliser, ONE '
+            'channel object and ONE user-built TdlImpulseResponse over a refilled buffer: modulate, corrupt_data, '
+            'demodulate, equalize_data, get_freq_response each against first principles for the contents at call time, '
+            'equal-content copies, the argument overwritten right after the call, earlier results re-compared after every '
+            'round; the same array as modulate and demodulate argument, as tap powers and tap delays, as data and tap '
+            'values; one profile object in channels of different sampling intervals). TdlImpulseResponse keeps a '
+            'reference to the tap array it is built on (by design of the library; its cached dense form `tap_values` is '
+            'not part of this property and is not checked).',
 }
 
 TOL = 1e-9
